@@ -535,34 +535,53 @@ def f6Doc : Dict :=
   [("SI", .arr [.obj [("power_range_db", .arr [.int 0, .int 0, .int 1])],
                 .obj [("type_variety", .str "lband"), ("power_range_db", .arr [.int (-2), .int 1, .int 1])]])]
 
-/-- **F6: the property fails for the code as it is.**  After `convert_delta_power_range` and
-`convert_back_delta_power_range` the SECOND SI entry still has `power_range_dict_db` and no
-`power_range_db`. -/
-theorem delta_power_range_fails_current :
-    (convertDeltaPowerRange f6Doc >>= convertBackDeltaPowerRange)
+/-- **every SI / Span entry gets its range list back** (behaviour since the repair f4882f89) -/
+theorem delta_power_range_roundtrip_witness :
+    (convertDeltaPowerRange f6Doc >>= convertBackDeltaPowerRange) = .ok f6Doc := by
+  decide
+
+/-- **F6 (repaired in /repo by f4882f89): the old converter fails the property** – after
+`convert_delta_power_range` and the old `convert_back_delta_power_range` the SECOND SI entry still
+has `power_range_dict_db` and no `power_range_db`. -/
+theorem delta_power_range_fails_old :
+    (convertDeltaPowerRange f6Doc >>= convertBackDeltaPowerRangeOld)
       = .ok [("SI", .arr [.obj [("power_range_db", .arr [.int 0, .int 0, .int 1])],
           .obj [("type_variety", .str "lband"),
                 ("power_range_dict_db", .obj [("min_value", .int (-2)), ("max_value", .int 1), ("step", .int 1)])]])] := by
   decide
 
-/-- the repaired converter (every entry converted back) restores the document -/
-theorem delta_power_range_fixed_witness :
-    (convertDeltaPowerRange f6Doc >>= convertBackDeltaPowerRangeAll) = .ok f6Doc := by
-  decide
-
-/-! ### Raman efficiency of the equipment library (finding F7) -/
+/-! ### Raman efficiency of the equipment library (finding F7, repaired by df307dac) -/
 
 def f7Entry : Dict :=
   [("type_variety", .str "SSMF"),
    ("raman_efficiency", .obj [("cr", .arr [.int 0, .int 1]), ("frequency_offset", .arr [.int 0, .int 5])])]
 
-/-- **F7: the property fails for the code as it is.**  `raman_efficiency` goes to YANG and comes
-back under another key (`raman_coefficient`, without reference frequency), which the loader
-`json_io.Fiber` does not read. -/
-theorem raman_efficiency_fails_current :
-    (ramanEffToYang f7Entry >>= ramanEffToLegacy)
-      = .ok [("type_variety", .str "SSMF"),
-             ("raman_coefficient", .obj [("g0", .arr [.int 0, .int 1]), ("frequency_offset", .arr [.int 0, .int 5])])] := by
+/-- the legacy spelling the entry comes back with (pinned by the repo's expected files) -/
+def f7Back : Dict :=
+  [("type_variety", .str "SSMF"),
+   ("raman_coefficient", .obj [("g0", .arr [.int 0, .int 1]), ("frequency_offset", .arr [.int 0, .int 5])])]
+
+theorem raman_efficiency_back_spelling : (ramanEffToYang f7Entry >>= ramanEffToLegacy) = .ok f7Back := by
+  decide
+
+/-- **the returned spelling converts to the same YANG entry again** (a second round trip changes
+nothing) and **the loader builds the same Raman coefficient from both spellings**: the same three
+entries (`g0`, `frequency_offset`, and the library's default reference frequency), in another key
+order -/
+theorem raman_efficiency_roundtrip_witness :
+    (ramanEffAcceptCoef f7Back >>= ramanEffToYang) = ramanEffToYang f7Entry ∧
+    fiberRaman (.int 206) f7Back = some [("g0", .arr [.int 0, .int 1]), ("frequency_offset", .arr [.int 0, .int 5]),
+      ("reference_frequency", .int 206)] ∧
+    fiberRaman (.int 206) f7Entry = some [("frequency_offset", .arr [.int 0, .int 5]), ("g0", .arr [.int 0, .int 1]),
+      ("reference_frequency", .int 206)] := by
+  decide
+
+/-- **F7 (repaired in /repo by df307dac): the old code fails the property** – the old converter does
+not recognise the returned spelling (it stays `raman_coefficient`, which libyang refuses in an
+equipment RamanFiber entry) and the old loader builds no Raman coefficient from it. -/
+theorem raman_efficiency_fails_old :
+    ramanEffToYang f7Back = .ok f7Back ∧ fiberRamanOld (.int 206) f7Back = none ∧
+    (fiberRamanOld (.int 206) f7Entry).isSome = true := by
   decide
 
 /-! ### aliases -/
